@@ -242,6 +242,12 @@ struct Ctx {
 };
 
 Ctx *g_ctx = nullptr;
+struct DmCur {
+        bool active = false;
+        const char *fn = "", *how = "";
+        int arg = 0;
+        char kind = '?';
+} g_dm_cur; // the direct-API misuse call in progress (a fault in it is a C12 violation)
 sigjmp_buf g_jmp;
 volatile sig_atomic_t g_jmp_armed = 0;
 struct FaultInfo {
@@ -1402,6 +1408,7 @@ run_plan(const Plan &p, const RunOpts &o)
         install_handlers();
         preempt_install();
         g_pre.armed = g_pre.stepping = g_pre.fired = 0;
+        g_dm_cur.active = false;
         arena::init();
         arena::reset();
         RunResult res;
@@ -1508,7 +1515,20 @@ run_plan(const Plan &p, const RunOpts &o)
                 // a signal ended the run
                 res.crashed = true;
                 char b[256];
-                if (g_fault.guard) {
+                if (g_dm_cur.active) {
+                        snprintf(b, sizeof b, "%s with argument %d ('%c') %s faulted (signal %d at rip %p accessing %p%s) instead of returning an error",
+                                 g_dm_cur.fn, g_dm_cur.arg, g_dm_cur.kind, g_dm_cur.how, sig, g_fault.rip, g_fault.addr,
+                                 g_fault.guard ? ", a guard page" : "");
+                        Violation v;
+                        v.prop = "C12";
+                        v.oracle = "reject.fault";
+                        v.detail = b;
+                        v.op_index = c.op_index;
+                        v.key = std::string("variant=") + (c.cur_task && c.cur_task->mgr.m ? arch_type_name(c.cur_task->mgr.m) : "?") +
+                                ";fn=" + g_dm_cur.fn + ";arg=" + std::string(1, g_dm_cur.kind);
+                        res.viols.push_back(v);
+                        g_dm_cur.active = false;
+                } else if (g_fault.guard) {
                         std::string d = attribute_fault(c, g_aux_live);
                         std::string key;
                         size_t sp = d.find('\x01');
